@@ -1219,6 +1219,14 @@ def _mask(text, name):
     return ''.join(out)
 
 
+def _shape(text, names):
+    """Definition text with every identifier of `names` masked."""
+    out = text
+    for nm in sorted(names, key=len, reverse=True):
+        out = _mask(out, nm)
+    return out
+
+
 def _pure_lookup(e):
     """Attribute / subscript chain with name or constant indices: a hoisted
     lookup."""
@@ -1308,12 +1316,72 @@ def _inline_hoisted(fn, rf, log, q):
                 continue
             if _n(h[2].value) in ref_def_texts:
                 continue            # a renamed recorded local
+            allnames = set(locs) | ref_locs
+            if _shape(_n(h[2].value), allnames) in {
+                    _shape(d, allnames) for nm in ref_locs - set(locs)
+                    for d in rf.get('defs', {}).get(nm, [])}:
+                continue            # same, with other locals renamed too
             if _inline_temp(fn, c_):
                 log.append('%s: hoisted lookup %s inlined' % (q, c_))
                 done = True
                 break
         if not done:
             return
+    ast.fix_missing_locations(fn)
+
+
+def _rehoist(fn, rf, log, q):
+    """Re-introduce recorded single-definition lookup locals that the
+    current function spells out (the inverse of hoisting)."""
+    params, locs = local_order(fn)
+    used = _names(fn) | set(params)
+    for nm in rf.get('locals', []):
+        if nm in used:
+            continue
+        ds = rf.get('defs', {}).get(nm, [])
+        if len(ds) != 1 or ds[0].startswith(('for', 'unpack', 'aug')):
+            continue
+        try:
+            dnode = ast.parse(ds[0], mode='eval').body
+        except SyntaxError:
+            continue
+        if not _pure_lookup(dnode) or isinstance(dnode, ast.Name):
+            continue
+        dtext = ds[0]
+        # the shallowest block whose statements contain every occurrence
+        best = None
+        for blk in _blocks(fn):
+            idx = [k for k, st in enumerate(blk) if any(
+                isinstance(x, ast.expr) and isinstance(
+                    getattr(x, 'ctx', ast.Load()), ast.Load) and
+                _n(x) == dtext for x in ast.walk(st))]
+            if idx:
+                total = sum(1 for x in _own_nodes(fn) if isinstance(
+                    x, ast.expr) and _n(x) == dtext)
+                here = sum(1 for st in blk for x in ast.walk(st)
+                           if isinstance(x, ast.expr) and _n(x) == dtext)
+                if here == total and (best is None or len(blk) >= 1):
+                    best = (blk, idx[0])
+        if best is None:
+            continue
+        blk, k = best
+        # operands must be bound before position k (loop variables etc.)
+        class RH(ast.NodeTransformer):
+            def generic_visit(self, node):
+                if isinstance(node, ast.expr) and _n(node) == dtext and \
+                        not isinstance(getattr(node, 'ctx', None),
+                                       (ast.Store, ast.Del)):
+                    return ast.copy_location(ast.Name(id=nm, ctx=ast.Load()),
+                                             node)
+                return super().generic_visit(node)
+        for j in range(k, len(blk)):
+            blk[j] = RH().visit(blk[j])
+        asg = ast.Assign(targets=[ast.Name(id=nm, ctx=ast.Store())],
+                         value=dnode)
+        ast.copy_location(asg, blk[k])
+        blk.insert(k, asg)
+        used.add(nm)
+        log.append('%s: local %s re-introduced for `%s`' % (q, nm, dtext))
     ast.fix_missing_locations(fn)
 
 
@@ -1374,11 +1442,34 @@ def _temps_and_names(fn, rf, log, q):
                 break
         if done:
             continue
+        # A2. pair by definition shape (other locals renamed as well)
+        allnames = set(locs) | set(ref_locs)
+        cshape = {c_: [_shape(d, allnames) for d in cdefs.get(c_, [])]
+                  for c_ in cur_only}
+        rshape = {r_: [_shape(d, allnames) for d in ref_defs.get(r_, [])]
+                  for r_ in ref_only}
+        for c_ in cur_only:
+            if not cshape[c_]:
+                continue
+            cands = [r_ for r_ in ref_only if rshape[r_] == cshape[c_]]
+            back = [c2 for c2 in cur_only if cshape[c2] == cshape[c_]]
+            if len(cands) >= 1 and len(back) == len(cands):
+                # same multiplicity: pair in order of first binding
+                r_ = cands[back.index(c_)]
+                if r_ not in used:
+                    _rename(fn, {c_: r_})
+                    log.append('%s: local %s -> %s (same definition shape)'
+                               % (q, c_, r_))
+                    done = True
+                    break
+        if done:
+            continue
         # B. inline hoisted lookups the reference does not know
         for c_ in cur_only:
             h = _single_assign(fn, c_)
             if h is not None and _pure_lookup(h[2].value) and \
-                    _inline_temp(fn, c_):
+                    not any(rshape[r_] == cshape[c_] for r_ in ref_only) \
+                    and _inline_temp(fn, c_):
                 log.append('%s: hoisted lookup %s inlined' % (q, c_))
                 done = True
                 break
@@ -1508,6 +1599,7 @@ def canonicalise(tree, modname, text=None):
         _orient_ifs(fn, rf, log, q)
         _loops_to_reference(fn, rf, log, q)
         _temps_and_names(fn, rf, log, q)
+        _rehoist(fn, rf, log, q)
         _orient_ifs(fn, rf, log, q)
         if len(log) > n0 or any(l.startswith('inlined helper')
                                 for l in log):
